@@ -17,6 +17,8 @@ mod c15;
 mod c16;
 mod c17;
 mod c18;
+mod c19;
+mod c20;
 mod cmp;
 mod ev;
 mod fe;
@@ -109,6 +111,8 @@ fn main() {
         "C16" => c16::main(tier, replay),
         "C17" => c17::main(tier, replay),
         "C18" => c18::main(tier, replay),
+        "C19" => c19::main(tier, replay),
+        "C20" => c20::main(tier, replay, wa),
         "SELFTEST" => selftest::main(),
         "DBGLATTICE" => { selftest::dbg_lattice(); 0 }
         "DBGHUFF" => { selftest::dbg_huff(); 0 }
